@@ -49,7 +49,12 @@ class Script:
         self.counts = {}
         self.hit = []     # scheduled entries that were reached
 
+    real_kill = False   # set by a sacrificial child process: die for real instead of emulating it
+
     def _die(self):
+        if self.real_kill:
+            import signal
+            os.kill(os.getpid(), signal.SIGKILL)
         self.killed = True
         for f in self.files:
             f._abandon()
